@@ -21,6 +21,7 @@ class ToyModel(chi.MechanisticModel):
         self._sens = False
         self._sens_idx = list(range(n_parameters))
         self.calls = 0
+        self.last_parameters = None
 
     def value(self, parameters, o, t):
         p = np.asarray(parameters, float)
@@ -66,6 +67,7 @@ class ToyModel(chi.MechanisticModel):
     def simulate(self, parameters, times):
         self.calls += 1
         parameters = np.asarray(parameters, float)
+        self.last_parameters = parameters.copy()
         if len(parameters) != len(self._names):
             raise ValueError('wrong number of parameters')
         times = np.asarray(times, float)
